@@ -178,7 +178,11 @@ class DirectObjectAccess:
     def _create_access_path(self, obj) -> AccessPath:
         return create_access_path(self._inference_state, obj)
 
-    def py__bool__(self):
+    def py__bool__(self, *, safe=True):
+        if safe and safe_getattr(type(self._obj), '__module__', default='') != 'builtins':
+            # Get rid of side effects, we won't call custom `__bool__`s or
+            # `__len__`s. None means that there's no certainty.
+            return None
         return bool(self._obj)
 
     def py__file__(self) -> Optional[Path]:
